@@ -154,6 +154,25 @@ func (u *universe) repeatedFamilies(thorough bool) (cfgs []cfgSpec, sizes map[st
 			add("mixed-list", sel)
 		}
 	}
+	// (d) a refused replacement next to accepted ones: an override of a module member with a value risor cannot
+	// represent (a Go func) is refused when the configuration is built. Whatever becomes of that one name (it is
+	// denied here as well, so it has to be gone), the other names of the same configuration are served as
+	// configured: the denied ones are gone, the accepted replacements are installed - in whichever order the
+	// override map is walked
+	for mi, m := range mods {
+		if len(u.members[m]) < 2 || (!thorough && mi%3 != 0) {
+			continue
+		}
+		m2 := mods[(mi+1)%len(mods)]
+		top := u.pick("len", u.names[0].Name)
+		x, y, z := m+"."+u.members[m][0], m+"."+u.members[m][1], m2+"."+u.members[m2][0]
+		for _, first := range []bool{false, true} {
+			cfgs = append(cfgs, cfgSpec{Deny: []string{top, x}, Refused: []string{x}, Override: []string{y, z}, Repl: "builtin", Variadic: true, OverrideFirst: first, Family: "refused-override"})
+			sizes["refused-override"]++
+			cfgs = append(cfgs, cfgSpec{Deny: []string{x, m2}, Refused: []string{x}, Override: []string{y, top}, Repl: "builtin", OverrideFirst: first, Family: "refused-override"})
+			sizes["refused-override"]++
+		}
+	}
 	return cfgs, sizes, unres
 }
 
@@ -212,7 +231,7 @@ func (u *universe) checkRepeated(r *ev.Run, report reporter, c cfgSpec, thorough
 		}
 	}
 	for k, d := range devs {
-		cfg, globals, pan := c.buildWith(d)
+		cfg, globals, repl, pan := c.buildWith(d)
 		in := caseIn{Kind: "repeated", Cfg: c, Order: &devs[k]}
 		if pan != "" {
 			report("c11-panic", "building "+c.String()+" panicked: "+pan, in, "panic", "a Config")
@@ -227,7 +246,7 @@ func (u *universe) checkRepeated(r *ev.Run, report reporter, c cfgSpec, thorough
 		}
 		seen[sh]++
 		if fullEach || !known {
-			s, t := u.closureOracle(r, wrap(&bad, d), c, in, globals, nil, false)
+			s, t := u.closureOracle(r, wrap(&bad, d), c, in, globals, repl, false)
 			st.states += s
 			st.trans += t
 			st.closures++
